@@ -69,6 +69,7 @@ def sem_vars():
             f = mod.symbol('f', s, input_sorts=(s,), is_functional=True, is_ctor=True)
             succ = mod.symbol('succ', s, input_sorts=(s,), is_functional=True, is_ctor=True)
             mk = mod.symbol('mk_y', s, is_functional=True, is_ctor=True)
+            nf = mod.symbol('nf', s, input_sorts=(s,), is_functional=False)
             g = mod.symbol('g', s, input_sorts=(s, s), is_functional=True, is_ctor=True)
             k = mod.symbol('k', cs, input_sorts=(s,), is_functional=True, is_ctor=True, is_cell=True)
             fr, to = KSortVar('From'), KSortVar('To')
@@ -85,9 +86,17 @@ def sem_vars():
         events.append((r[2], {0: t}))
     for t, u in itertools.product([ground[0], ground[1], ground[3]], repeat=2):
         events.append((r[1], {0: t, 1: u}))
-    inits = [k.app(f.app(a.app())), k.app(g.app(a.app(), succ.app(b.app()))), k.app(f.app(succ.app(b.app()))), k.app(g.app(mk.app(), a.app()))]
+    # substitutions the module cannot justify (the value's head symbol is not functional): such a step may be refused for that
+    # reason even when it starts at the current configuration -- but then it must leave no trace
+    NOT_JUSTIFIABLE.update({len(events), len(events) + 1})
+    events.append((r[0], {0: nf.app(a.app())}))
+    events.append((r[2], {0: nf.app(a.app())}))
+    inits = [k.app(f.app(a.app())), k.app(g.app(a.app(), succ.app(b.app()))), k.app(f.app(succ.app(b.app()))), k.app(g.app(mk.app(), a.app())),
+             k.app(f.app(nf.app(a.app())))]
     return semantics, events, inits
 
+
+NOT_JUSTIFIABLE: set = set()      # event indices of 'vars' whose substitution value has a non-functional head
 
 SEMANTICS = {'consts': sem_constants, 'vars': sem_vars}
 
@@ -163,6 +172,15 @@ def explore_chunk(args):
             if ok and not chained:
                 out['viol'].append(({'kind': 'unchained_step_accepted', 'semantics': sem_name}, desc,
                                     f'{sem_name}: after {list(hist)} the configuration is {rm.show(cur)[:120]} but event {e} starting at {rm.show(lhs)[:120]} was accepted'))
+                continue
+            if not ok and chained and sem_name == 'vars' and e in NOT_JUSTIFIABLE:
+                # refused because the substitution cannot be justified: allowed, but nothing of the step may stay behind
+                out['refused'] += 1
+                if (len(m2.get_axioms()), len(m2.get_claims()), len(m2.get_proof_expressions())) != (n_ax, n_cl, n_pf) \
+                        or bridge.expand(m2.current_configuration) != cur:
+                    out['viol'].append(({'kind': 'refused_step_changed_state', 'semantics': sem_name, 'why': 'unjustifiable substitution'}, desc,
+                                        f'{sem_name}: event {e} after {list(hist)} was refused (substitution value with a non-functional head) but left '
+                                        f'claims/axioms/proofs behind: {(n_ax, n_cl, n_pf)} -> {(len(m2.get_axioms()), len(m2.get_claims()), len(m2.get_proof_expressions()))}'))
                 continue
             if not ok and chained:
                 out['viol'].append(({'kind': 'chained_step_refused', 'semantics': sem_name}, desc,
@@ -255,6 +273,8 @@ def hints_chunk(args):
             if accepted and not ok:
                 out['viol'].append(({'kind': 'unchained_hints_accepted', 'semantics': sem_name, 'recorded': mode}, desc,
                                     f'{sem_name}: from_proof_hints accepted the trace {list(seq)} ({mode}) although a step does not start where the previous rule application ended'))
+            elif not accepted and ok and sem_name == 'vars' and any(e in NOT_JUSTIFIABLE for e in seq):
+                out['hint_refused'] += 1       # a substitution the module cannot justify: refusal is allowed
             elif not accepted and ok:
                 out['viol'].append(({'kind': 'chained_hints_refused', 'semantics': sem_name, 'recorded': mode}, desc,
                                     f'{sem_name}: from_proof_hints refused the chained trace {list(seq)} ({mode})'))
@@ -378,6 +398,21 @@ def conversion_check_one(variant, defn, e, sem):
     S = e['S']
     a, b = K.App('Lbla'), K.App('Lblb')
     ground = [a, b, e['f'](a), e['g'](a, b)]
+    # conversion keeps distinct ground terms apart (domain values differ only in their literal)
+    lits = [K.DV(S, K.String('3')), K.DV(S, K.String('4')), K.DV(e['C'], K.String('3'))]
+    wide = ground + lits + [e['f'](lits[0]), e['f'](lits[1]), e['g'](lits[0], lits[1]), e['g'](lits[1], lits[0]), e['cell'](lits[0]), e['cell'](lits[1])]
+    conv = []
+    for t in wide:
+        try:
+            conv.append(bridge.expand(sem.convert_pattern(t)))
+        except Exception as ex:  # noqa: BLE001
+            out['viol'].append(({'kind': 'conversion_raises', 'term': repr(t)[:80]}, f'convert_pattern({t!r}) raised {type(ex).__name__}: {str(ex)[:100]}'))
+            conv.append(None)
+    for i in range(len(wide)):
+        for j in range(i + 1, len(wide)):
+            out['evals'] += 1
+            if conv[i] is not None and conv[i] == conv[j]:
+                out['viol'].append(({'kind': 'distinct_terms_merged'}, f'the distinct Kore terms {wide[i]!r} and {wide[j]!r} convert to the same pattern'))
     axioms = [s for s in defn.modules[0].sentences if isinstance(s, K.Axiom)]
     ordinals = {}
     for i, ax in enumerate(axioms):
